@@ -25,6 +25,8 @@ pub struct TrioRoot {
     pub fees: Fee3,
     pub first: [u128; 3],
     pub pre_swaps: bool,
+    /// start an amplification ramp to this target over 20000 blocks and advance 7000 blocks (mid-ramp root)
+    pub mid_ramp_to: Option<u64>,
 }
 
 pub struct TrioScn {
@@ -208,6 +210,17 @@ impl Scenario for TrioScn {
                 trio_swap(w, &h.trio, BOB, 0, 1, (res[0] / 50).max(2), loose_belief(), None).expect("pre swap");
                 trio_swap(w, &h.trio, CAROL, 2, 0, (res[2] / 40).max(2), loose_belief(), None).expect("pre swap");
             }
+        }
+        if let Some(target) = r.mid_ramp_to {
+            let fb = w.height() + 20_000;
+            w.exec(
+                OWNER,
+                &h.hub.factory,
+                &white_whale_std::pool_network::factory::ExecuteMsg::UpdateTrioConfig { trio_addr: h.trio.addr.clone(), owner: None, fee_collector_addr: None, pool_fees: None, feature_toggle: None, amp_factor: Some(RampAmp { future_a: target, future_block: fb }) },
+                &[],
+            )
+            .expect("root ramp");
+            w.advance(7000 * 6_000_000_000, 7000);
         }
         let burned = trio_burned(w, &h.trio.addr).unwrap();
         let mut supply0 = [0u128; 3];
@@ -442,13 +455,19 @@ impl Scenario for TrioScn {
                                     cx.count("probe:there_and_back");
                                     // known-finding class: gain of at most two base units of the intermediate
                                     // asset valued at the realised price, in a pool where that price is >= 2
+                                    // known-finding classes. Dust: the realised exchange rate of one of the two legs is
+                                    // >= 2 (local slope above 1, i.e. one base unit of one asset is worth several of the
+                                    // other) and the gain is at most two units of the offered asset plus two units of the
+                                    // intermediate asset at that rate, or (large swaps) at most 1e-6 of the amount — the relative
+                                    // precision lost by the truncating divisions. Extreme: one reserve nearly drained.
                                     let price = ((back + ret - 1) / ret.max(1)).max(1);
+                                    let price_up = ((ret + amount - 1) / amount.max(1)).max(1);
                                     let rmax = *res.iter().max().unwrap();
                                     let rmin = *res.iter().min().unwrap();
                                     let ratio = rmax / rmin.max(1);
                                     let sig = if ratio >= 1000 {
                                         "inexact-math-profit@extreme-imbalance"
-                                    } else if ratio >= 4 && back <= amount + 2 * price + 2 {
+                                    } else if (price >= 2 || price_up >= 2 || ratio >= 4) && back <= amount + (2 * price + 2).max(amount / 1_000_000) {
                                         "rounding-dust-profit@imbalanced"
                                     } else {
                                         ""
